@@ -15,6 +15,8 @@ open Negotiate DriverUtil
     est              -> stateChange(ESTABLISHED) on the current state; prints the state (estq: silently)
     peerdown         what the server does to the negotiated state when the session goes down
     recvmax t / sendmax t (t = 1 open 2 update 3 notification 4 keepalive 5 route-refresh, else unknown)
+    apuse f              -> `recv b send b as4 b`: are path identifiers expected in received / written in sent NLRI of
+                            family f, and are AS numbers 4 octets wide on the wire, under the session's codec options
     recvfits t total     -> 1 | 0   does the receive gate let a message of `total` octets (header included) through
     sendwrites t total   -> octets sendMessageloop's `send` writes for a message that serialises to `total` octets (0 = skipped)
     notifwrites total    -> octets fsm.sendNotification writes for a NOTIFICATION of `total` octets
@@ -169,6 +171,10 @@ def step (s : St) (ts : List String) : St × List String :=
   | ["estq"] => ({ s with ps := stateChange s.cfg s.ps s.opn }, [])
   | ["recvmax", t] => (s, [toString (recvMaxLen s.ps (msgType t))])
   | ["sendmax", t] => (s, [toString (sendMaxLen s.ps (msgType t))])
+  | ["apuse", f] =>
+    (s, ["recv " ++ b2s (expectsPathId (recvOpts s.ps) true (nat! f)) ++
+         " send " ++ b2s (expectsPathId (sendOpts s.ps) false (nat! f)) ++
+         " as4 " ++ b2s (!(sendOpts s.ps).use2ByteAs)])
   | ["recvfits", t, total] => (s, [b2s (recvFits s.ps (msgType t) (nat! total))])
   | ["sendwrites", t, total] => (s, [toString (sendWrites s.ps (msgType t) (nat! total))])
   | ["notifwrites", total] => (s, [toString (notifWrites (nat! total))])
